@@ -295,3 +295,60 @@ def slowreq(case, res):
         S.shutdown()
         return S.ops[:10]
     sim_case(case, res, body)
+
+
+@scenario("acceptburst")
+def acceptburst(case, res):
+    """'the daemon keeps accepting and serving connections': many connections become pending on one (edge-triggered) listener
+    between two wake-ups - some of them already reset or closed again by their client, some with a first request queued - while
+    established peers go on working; every connection that is still there is accepted and served"""
+    prm = case.get("params", {})
+
+    def body(S, rng):
+        own = S.connect("own", "raw")
+        S.request(own, "add", {"path": "b/s", "value": 0})
+        sub = S.connect("sub", rng.choice(["raw", "uds", "ws"]))
+        if sub.transport == "ws":
+            S.handshake(sub)
+        S.request(sub, "fetch", {"id": 1})
+        S.settle()
+        n = 0
+        for rnd in range(prm.get("rounds", 3)):
+            t = rng.choice(["raw", "uds", "ws"])
+            k = rng.choice([9, 10, 11, 12, 21, 40])
+            conns = []
+            for i in range(k):
+                n += 1
+                c = S.connect("b%d" % n, t)
+                if t == "ws":
+                    S.handshake(c)
+                r = rng.random()
+                if r < 0.1:
+                    c.may_close = True
+                    S.end(c, "rst")                 # gone again before the daemon looked
+                elif r < 0.2:
+                    S.request(c, "info")
+                    S.end(c, "eof")
+                elif r < 0.8:
+                    S.request(c, "info")
+                conns.append(c)
+            S.request(own, "change", {"path": "b/s", "value": rnd + 1})
+            S.settle()
+            S.sig("accept-burst", t, min(k, 12))
+            S.stats["burst_connections"] += k
+            for c in conns:
+                if not c.accepted and not c.ended:
+                    S.v("conn/pending-connection-not-accepted", "%s (%s) of a burst of %d" % (c.name, t, k))
+                    break
+            for c in conns:
+                if not c.closed and not c.ended:
+                    S.request(c, "get", {})
+            S.settle()
+            for c in conns:
+                S.end(c, "eof")
+            S.settle()
+        st = S.close_all()
+        S.check_idle_baseline(st)
+        S.shutdown()
+        return S.ops[:10]
+    sim_case(case, res, body)
